@@ -325,7 +325,7 @@ def _for_chain(text):
 
 
 _ADAPTERS = ("map", "filter", "flat_map", "tuple_combinations")
-_CONSUMERS = ("any", "sum", "fold", "collect", "max", "min")
+_CONSUMERS = ("any", "all", "sum", "fold", "collect", "max", "min")
 
 
 def _recv_start(b, dot):
@@ -530,6 +530,9 @@ def _expr_chain(text):
         elif cons[0] == "any":
             cl = _closure(cons[1])
             init, upd = "let mut %s = false;" % acc, "if { let %s = %s; %s } { %s = true; }" % (cl[0], e, cl[1], acc)
+        elif cons[0] == "all":
+            cl = _closure(cons[1])
+            init, upd = "let mut %s = true;" % acc, "if !({ let %s = %s; %s }) { %s = false; }" % (cl[0], e, cl[1], acc)
         elif cons[0] == "sum":
             init, upd = "let mut %s: f64 = 0.;" % acc, "%s = %s + %s;" % (acc, acc, e)
         elif cons[0] == "min":
